@@ -72,7 +72,7 @@ META = dict(
          "C04_corrupted_block_silent); for duplicate-free blocks every proof the tree builds recomputes the root and an honest block is accepted "
          "(C04_nodup_proofs_recompute, C04_honest_block_accepted) and the proofs' siblings are exactly Spec.merklePath (C04_nodup_textbook_paths); a repeated txid yields a proof CalculateRoot refuses (C04_repeated_tx_bad_proof). "
          "The model is tied to block_downloader.go and the merkle_proof dependency by differential runs of the real HandleBlock "
-         "(native MerkleProof.Verify on every emitted proof) and by extracted facts (call order in handleBlock, NewMerkleTree(true)).",
+         "(native MerkleProof.Verify on every emitted proof) and by extracted facts (call order in handleBlock incl. the two cancellation tests, NewMerkleTree(true)); a sample of the downloader stream of C16 (Run, Cancel, Stop around HandleBlock) runs under this check too.",
     note=COMMON_NOTE + "Hashes are ideal (free term algebra): 64-byte-transaction style collisions between a txid and an inner node are outside the model. "
          "A block that repeats its tail transactions has the header's root (classical ambiguity); since /repo 6200e79 it is refused when a repeated "
          "copy is relevant (its proof does not verify) and still accepted otherwise, with ProcessTx seeing the repeated transactions. "
